@@ -100,10 +100,14 @@ theorem C05_compile_correct (g : Grammar) (r : Nat) :
   refine ⟨expandTop_isSome _ _, fun st h ws => ?_⟩
   exact ((C05_expand_correct (desugar g) (.user r)).2 st h ws).trans (C05_desugar_preserves g r ws)
 
-/-- **C05, weights.** Over ℚ: after `expand_rule`'s normalisation the weights of the first atoms of
-a rule's alternatives sum to one (when their sum is not 0; when it is 0 nothing changes), and
+/-- **C05, weights (rule level).** Over ℚ: after `expand_rule`'s normalisation the weights of the first
+atoms of a rule's alternatives sum to one (when their sum is not 0; when it is 0 nothing changes), and
 normalising again changes nothing (the C code normalises in place on every expansion of the
-rule). -/
+rule).  This is a statement about the rule's `firstWeights`, NOT about the outgoing arcs of an FSG
+state: an alternative that starts with `<VOID>` gets no arc and a lone rule reference may become a
+null self-loop that `fsg_model` drops, so the arc probabilities of a choice point are only bounded by
+one in general; the check evaluates the arc sums on the real FSG (exactly one where no mass can
+vanish, at most one otherwise) and compares every arc probability with the model's. -/
 theorem C05_weights_normalised (rl : Rule) :
     (sumRat (firstWeights rl) ≠ 0 → sumRat (firstWeights (normaliseRule rl)) = 1) ∧
     (sumRat (firstWeights rl) = 0 → normaliseRule rl = rl) ∧
@@ -112,18 +116,12 @@ theorem C05_weights_normalised (rl : Rule) :
 
 /-! ### the text front end (`jsgf_scanner.l`, `jsgf_parser.y`) -/
 
-open SSVerif.JsgfText in
-/-- **C05, the front end is total.** `parseText` (scanner model `lexGo` with its four start
-conditions, then the pushdown parser `pstep`) is defined by structural recursion on the byte
-string and on the token list — no fuel, no `partial` — so it answers on every byte string:
-a syntax tree or a rejection.  (The scanner consumes at least one character per action:
-`lexGo` advances through the input one character at a time, a match of length `n` skipping the
-next `n − 1`.) -/
-theorem C05_parse_total (cs : List Char) :
-    (∃ g, parseText cs = some g) ∨ parseText cs = none := by
-  cases h : parseText cs with
-  | none => exact Or.inr rfl
-  | some g => exact Or.inl ⟨g, rfl⟩
+/-! Totality of the front end is by construction, not a theorem: `parseText` (scanner model `lexGo`
+with its four start conditions, then the pushdown parser `pstep`) is defined by structural recursion on
+the byte string and on the token list — no fuel, no `partial` — so Lean's termination checker has
+accepted that it answers on every byte string (a syntax tree or a rejection).  A statement of the form
+"`parseText cs` is `some _` or `none`" would be true of every value of the type and is deliberately not
+listed as a property theorem (audit A3). -/
 
 open SSVerif.JsgfText in
 /-- **C05, print–parse round trip.** For every text-level syntax tree `g` — any nesting of groups,
@@ -138,12 +136,13 @@ theorem C05_parse_print (g : TGrammar) (h : g.ok = true) : parseText (printG g) 
   parse_print g h
 
 open SSVerif.JsgfText in
-/-- **C05, from text to language.** For every byte string the front end accepts, with the surface
-grammar `resolve` builds from the syntax tree (names qualified as `jsgf_fullname` /
+/-- **C05, from text to language.** For every syntax tree (in particular the one `parseText` returns
+for a byte string the front end accepts — the check runs `parseText` and `resolve` on every text), with the
+surface grammar `resolve` builds from the syntax tree (names qualified as `jsgf_fullname` /
 `jsgf_fullname_from_rule` do, a repeated rule name keeping its first definition) and every rule `r`:
 the compiler model builds (`buildRaw`, i.e. the expansion is not refused and no null transition
 would get a probability above one) only automata that accept exactly the JSGF language of `r`. -/
-theorem C05_text_compile_correct (cs : List Char) (tg : TGrammar) (_h : parseText cs = some tg) (r : Nat)
+theorem C05_text_compile_correct (tg : TGrammar) (r : Nat)
     (st : XSt) (hb : buildRaw (desugar (resolve tg).1) (.user r) = some st) (ws : List Nat) :
     Accepts st.toNfa ws ↔ Lang (resolve tg).1 r ws := by
   unfold buildRaw at hb
